@@ -46,7 +46,9 @@ def check(run):
                         "optimistic-lock patches, field-indexed lists); the harness provider moves instances running -> terminating -> gone",
                         "reconciles run without foreign steps in between (coarse granularity); the fine-grained interleaving is "
                         "checked on the closed model only (Termination_MCfine.cfg, thorough tier)",
-                        "only pods tolerating karpenter.sh/disrupted:NoSchedule bind to a node under termination (kube-scheduler honours the taint)",
+                        "pods may be bound to the node at any time between reconciles (tolerating ones, and non-tolerating ones bound directly with "
+                        "spec.nodeName); the drain answers for every pod bound before the finalizer-removing reconcile listed the node's pods",
+                        "a VolumeAttachment blocks as long as the object exists (a deletionTimestamp means the detach is still in progress)",
                         "'provider confirms the instance gone' = some Delete/Get for that provider id answered NotFound to Karpenter",
                         "a VolumeAttachment blocks unless its volume belongs to a pod on the node that Karpenter cannot drain"]
 
